@@ -208,6 +208,12 @@ func checkC12(r *Run) {
 				if s.Callee == "sync/atomic.StoreUint32" && len(s.Call.Args) == 2 {
 					stored[r.L.str(s.Call.Args[0])+"="+r.L.str(s.Call.Args[1])] = true
 				}
+				// the typed form: cs.messageSize.Store(msize)
+				if strings.HasPrefix(s.Callee, "sync/atomic.") && strings.HasSuffix(s.Callee, ".Store") && len(s.Call.Args) == 1 {
+					if sel, ok := unparen(s.Call.Fun).(*ast.SelectorExpr); ok {
+						stored["&"+r.L.str(sel.X)+"="+r.L.str(s.Call.Args[0])] = true
+					}
+				}
 			}
 			csN := "cs"
 			if ps := tv.Decl.Type.Params.List; len(ps) == 1 && len(ps[0].Names) == 1 {
@@ -230,6 +236,36 @@ func checkC12(r *Run) {
 					if r.L.str(c.Args[1]) != msName {
 						okMk = false
 					}
+					return true
+				}
+				// the buffers may be set up by a private helper that is handed the announced
+				// msize (cs.initBuffers(msize)): its make calls count, sized by that parameter
+				if tf := r.L.FuncOf(callee(info, c)); tf != nil && tf != tv && tf.Decl.Body != nil && !tf.Obj.Exported() && !pinnedFuncs[tf.Key] && tf.Pkg == tv.Pkg {
+					param := map[string]int{}
+					idx := 0
+					for _, f := range tf.Decl.Type.Params.List {
+						for _, nm := range f.Names {
+							param[nm.Name] = idx
+							idx++
+						}
+						if len(f.Names) == 0 {
+							idx++
+						}
+					}
+					ast.Inspect(tf.Decl.Body, func(n2 ast.Node) bool {
+						c2, ok := n2.(*ast.CallExpr)
+						if !ok {
+							return true
+						}
+						if id, ok := c2.Fun.(*ast.Ident); ok && id.Name == "make" && len(c2.Args) == 2 {
+							nmk++
+							pi, isParam := param[r.L.str(c2.Args[1])]
+							if !isParam || pi >= len(c.Args) || r.L.str(c.Args[pi]) != msName {
+								okMk = false
+							}
+						}
+						return true
+					})
 				}
 				return true
 			})
